@@ -840,4 +840,24 @@ theorem filterE_ok_sub {α : Type} (p : α → E Bool) : ∀ (l out : List α), 
           simp only [Bool.false_eq_true, if_false] at hx
           exact List.mem_cons_of_mem _ (ih rest hrest x hx)
 
+theorem filterE_sublist {α : Type} (p : α → E Bool) : ∀ (l out : List α), filterE p l = .ok out → out.Sublist l := by
+  intro l
+  induction l with
+  | nil => intro out h; simp only [filterE, pure, Except.pure, Except.ok.injEq] at h; subst h; exact List.Sublist.slnil
+  | cons a l ih =>
+    intro out h
+    simp only [filterE, bind, Except.bind] at h
+    cases hp : p a with
+    | error e => simp [hp] at h
+    | ok b =>
+      simp only [hp] at h
+      cases hrest : filterE p l with
+      | error e => simp [hrest] at h
+      | ok rest =>
+        simp only [hrest, pure, Except.pure, Except.ok.injEq] at h
+        subst h
+        cases b with
+        | true => simp only [if_true]; exact (ih rest hrest).cons₂ a
+        | false => simp only [Bool.false_eq_true, if_false]; exact (ih rest hrest).cons a
+
 end ASV.Proto
